@@ -97,52 +97,50 @@ theorem removeSign_tids (n : Net) (x : Id) : (n.removeSign x).tids = n.tids := b
 
 /-! ### the scenario loops, knowing which ids they are run on -/
 
-theorem Scn.loop_inv' (f : Net → Id → Net) (loop : Scn → List Id → Scn × Option Err)
-    (hnil : ∀ s, loop s [] = (s, none))
-    (hcons : ∀ s i is, loop s (i :: is) =
-      match ({ s with net := f s.net i } : Scn).idsRemove i with
-      | (s2, none) => loop s2 is
-      | r => r)
+theorem Scn.loop_inv' {kind : Net → List Id} {f : Net → Id → Net} {loop : Scn → List Id → Scn × Option Err}
+    (hl : LoopShape kind f loop)
     (Q : Net → Prop) (s : Scn) (is : List Id) (hf : ∀ n, ∀ i ∈ is, Q n → Q (f n i)) (h : Q s.net) :
     Q (loop s is).1.net := by
   induction is generalizing s with
-  | nil => rw [hnil]; exact h
+  | nil => rw [hl.1]; exact h
   | cons i is ih =>
-    rw [hcons]
-    have hn := Scn.idsRemove_net ({ s with net := f s.net i } : Scn) i
-    have hq : Q (f s.net i) := hf _ i List.mem_cons_self h
-    cases hr : ({ s with net := f s.net i } : Scn).idsRemove i with
-    | mk s1 e =>
-      rw [hr] at hn
-      cases e with
-      | none => exact ih s1 (fun n j hj => hf n j (List.mem_cons_of_mem _ hj)) (by rw [hn]; exact hq)
-      | some e => show Q s1.net; rw [hn]; exact hq
+    rw [hl.2]
+    split
+    · have hn := Scn.idsRemove_net ({ s with net := f s.net i } : Scn) i
+      have hq : Q (f s.net i) := hf _ i List.mem_cons_self h
+      cases hr : ({ s with net := f s.net i } : Scn).idsRemove i with
+      | mk s1 e =>
+        rw [hr] at hn
+        cases e with
+        | none => exact ih s1 (fun n j hj => hf n j (List.mem_cons_of_mem _ hj)) (by rw [hn]; exact hq)
+        | some e => show Q s1.net; rw [hn]; exact hq
+    · exact h
 
 /-- if the loop did not raise, every id was processed: a fact `R i` that processing `i` establishes and that later
 steps keep holds at the end for every `i` of the list -/
-theorem Scn.loop_done (f : Net → Id → Net) (loop : Scn → List Id → Scn × Option Err)
-    (hnil : ∀ s, loop s [] = (s, none))
-    (hcons : ∀ s i is, loop s (i :: is) =
-      match ({ s with net := f s.net i } : Scn).idsRemove i with
-      | (s2, none) => loop s2 is
-      | r => r)
+theorem Scn.loop_done {kind : Net → List Id} {f : Net → Id → Net} {loop : Scn → List Id → Scn × Option Err}
+    (hl : LoopShape kind f loop)
     (R : Id → Net → Prop) (hest : ∀ m i, R i (f m i)) (hpres : ∀ m i j, R i m → R i (f m j))
     (s : Scn) (is : List Id) (h : (loop s is).2 = none) : ∀ i ∈ is, R i (loop s is).1.net := by
   induction is generalizing s with
   | nil => intro i hi; cases hi
   | cons i is ih =>
-    rw [hcons] at h ⊢
-    have hn := Scn.idsRemove_net ({ s with net := f s.net i } : Scn) i
-    cases hr : ({ s with net := f s.net i } : Scn).idsRemove i with
-    | mk s1 e =>
-      rw [hr] at hn h
-      cases e with
-      | none =>
-        intro j hj
-        rcases List.mem_cons.1 hj with rfl | hj
-        · exact Scn.loop_inv' f loop hnil hcons (R j) s1 is (fun n k _ hq => hpres n j k hq) (by rw [hn]; exact hest _ _)
-        · exact ih s1 h j hj
-      | some e => cases h
+    rw [hl.2] at h ⊢
+    split at h
+    · rename_i hk
+      rw [if_pos hk]
+      have hn := Scn.idsRemove_net ({ s with net := f s.net i } : Scn) i
+      cases hr : ({ s with net := f s.net i } : Scn).idsRemove i with
+      | mk s1 e =>
+        rw [hr] at hn h
+        cases e with
+        | none =>
+          intro j hj
+          rcases List.mem_cons.1 hj with rfl | hj
+          · exact Scn.loop_inv' hl (R j) s1 is (fun n k _ hq => hpres n j k hq) (by rw [hn]; exact hest _ _)
+          · exact ih s1 h j hj
+        | some e => cases h
+    · cases h
 
 theorem Scn.removeLanelets_inv' (Q : Net → Prop) (s : Scn) (args : List RmArg) (r : Bool)
     (hl : ∀ n, ∀ i ∈ args.map (·.id), Q n → Q (n.removeLanelet i))
@@ -151,11 +149,11 @@ theorem Scn.removeLanelets_inv' (Q : Net → Prop) (s : Scn) (args : List RmArg)
     (h : Q s.net) : Q (s.removeLanelets args r).1.net := by
   unfold Scn.removeLanelets
   cases r
-  · exact Scn.loop_inv' Net.removeLanelet Scn.removeLaneletLoop (fun _ => rfl) (fun _ _ _ => rfl) Q s _ hl h
+  · exact Scn.loop_inv' loopShape_lanelets Q s _ hl h
   · simp only [if_true]
     unfold Scn.removeHanging
     dsimp only
-    have h1 := Scn.loop_inv' Net.removeSign Scn.removeSigns (fun _ => rfl) (fun _ _ _ => rfl) Q s _ hs h
+    have h1 := Scn.loop_inv' loopShape_signs Q s _ hs h
     cases hr : s.removeSigns (s.net.hangingSigns args) with
     | mk s1 e =>
       rw [hr] at h1
@@ -163,14 +161,14 @@ theorem Scn.removeLanelets_inv' (Q : Net → Prop) (s : Scn) (args : List RmArg)
       | some e => exact h1
       | none =>
         dsimp only
-        have h2 := Scn.loop_inv' Net.removeLight Scn.removeLights (fun _ => rfl) (fun _ _ _ => rfl) Q s1 _ ht h1
+        have h2 := Scn.loop_inv' loopShape_lights Q s1 _ ht h1
         cases hr2 : s1.removeLights (s.net.hangingLights args) with
         | mk s2 e2 =>
           rw [hr2] at h2
           cases e2 with
           | some e => exact h2
           | none =>
-            exact Scn.loop_inv' Net.removeLanelet Scn.removeLaneletLoop (fun _ => rfl) (fun _ _ _ => rfl) Q s2 _ hl h2
+            exact Scn.loop_inv' loopShape_lanelets Q s2 _ hl h2
 
 /-- the three loops of `Scenario.remove_lanelet(…, referenced_elements=True)` all ran to the end -/
 theorem Scn.removeLanelets_done (s : Scn) (args : List RmArg) (h : (s.removeLanelets args true).2 = none) :
@@ -376,5 +374,116 @@ theorem fromList_lids (n : Net) (sel : List Id) (c : Bool) (a : Id) :
   · exact hb
   · simp only [if_true, Net.cleanupSignRefs_lids, Net.cleanupLightRefs_lids, Net.cleanupLaneletRefs_lids]
     exact hb
+
+/-! ### intersections and incoming elements by id -/
+
+/-- the network holds an intersection `x` with an incoming element `kid` -/
+def Net.hasInc (n : Net) (x kid : Id) : Prop := ∃ i ∈ n.inters, i.id = x ∧ ∃ k ∈ i.incomings, k.id = kid
+
+theorem iids_eq_shapes (n : Net) : n.iids = n.shapes.map (·.1) := by
+  simp [Net.iids, Net.shapes, Intersection.shape, List.map_map, Function.comp_def]
+
+theorem hasInc_iff_shapes (n : Net) (x kid : Id) : n.hasInc x kid ↔ ∃ sh ∈ n.shapes, sh.1 = x ∧ kid ∈ sh.2 := by
+  simp only [Net.hasInc, Net.shapes, List.mem_map]
+  constructor
+  · rintro ⟨i, hi, rfl, k, hk, rfl⟩
+    exact ⟨i.shape, ⟨i, hi, rfl⟩, rfl, List.mem_map.2 ⟨k, hk, rfl⟩⟩
+  · rintro ⟨_, ⟨i, hi, rfl⟩, rfl, hm⟩
+    obtain ⟨k, hk', he⟩ := List.mem_map.1 hm
+    exact ⟨i, hi, rfl, k, hk', he⟩
+
+theorem iids_of_shapes_eq {n n' : Net} (h : n'.shapes = n.shapes) : n'.iids = n.iids := by
+  rw [iids_eq_shapes, iids_eq_shapes, h]
+
+theorem hasInc_of_shapes_eq {n n' : Net} (h : n'.shapes = n.shapes) (x kid : Id) : n'.hasInc x kid ↔ n.hasInc x kid := by
+  rw [hasInc_iff_shapes, hasInc_iff_shapes, h]
+
+theorem shapes_of_inters_eq {n n' : Net} (h : n'.inters = n.inters) : n'.shapes = n.shapes := by
+  simp [Net.shapes, h]
+
+/-! ### cut-out: exactly which incoming elements and intersections are taken over -/
+
+theorem Incoming.cut_some_nonempty {P : Id → Bool} {k k' : Incoming} (h : k.cut P = some k') :
+    (∃ a ∈ k.inc, P a = true) ∧ (∃ a ∈ k.right ++ k.straight ++ k.left, P a = true) := by
+  unfold Incoming.cut at h
+  simp only at h
+  split at h
+  · cases h
+  · rename_i h1
+    split at h
+    · cases h
+    · rename_i h2
+      constructor
+      · cases hl : keepIn P k.inc with
+        | nil => rw [hl] at h1; simp at h1
+        | cons a as =>
+          have : a ∈ keepIn P k.inc := by rw [hl]; exact List.mem_cons_self
+          exact ⟨a, (mem_keepIn.1 this).1, (mem_keepIn.1 this).2⟩
+      · have hne : ¬ (keepIn P k.left = [] ∧ keepIn P k.straight = [] ∧ keepIn P k.right = []) := by
+          rintro ⟨z1, z2, z3⟩
+          rw [z1, z2, z3] at h2
+          simp at h2
+        have : ∃ a, a ∈ keepIn P k.left ∨ a ∈ keepIn P k.straight ∨ a ∈ keepIn P k.right := by
+          cases h1' : keepIn P k.left with
+          | cons a _ => exact ⟨a, Or.inl List.mem_cons_self⟩
+          | nil =>
+            cases h2' : keepIn P k.straight with
+            | cons a _ => exact ⟨a, Or.inr (Or.inl List.mem_cons_self)⟩
+            | nil =>
+              cases h3' : keepIn P k.right with
+              | cons a _ => exact ⟨a, Or.inr (Or.inr List.mem_cons_self)⟩
+              | nil => exact absurd ⟨h1', h2', h3'⟩ hne
+        obtain ⟨a, ha⟩ := this
+        simp only [List.mem_append]
+        rcases ha with ha | ha | ha
+        · exact ⟨a, Or.inr (mem_keepIn.1 ha).1, (mem_keepIn.1 ha).2⟩
+        · exact ⟨a, Or.inl (Or.inr (mem_keepIn.1 ha).1), (mem_keepIn.1 ha).2⟩
+        · exact ⟨a, Or.inl (Or.inl (mem_keepIn.1 ha).1), (mem_keepIn.1 ha).2⟩
+
+theorem Intersection.cut_some_nonempty {P : Id → Bool} {i i' : Intersection} (h : i.cut P = some i') :
+    ∃ k', k' ∈ i'.incomings := by
+  have e := Intersection.cut_some h
+  unfold Intersection.cut at h
+  simp only at h
+  split at h
+  · cases h
+  · rename_i h1
+    rw [e]
+    cases hl : i.incomings.filterMap (·.cut P) with
+    | nil => rw [hl] at h1; simp at h1
+    | cons a as => exact ⟨a, List.mem_cons_self⟩
+
+/-- every incoming element of a cut-out network comes from one that keeps an incoming lanelet and a successor -/
+theorem cutOut_inter_origin {n n' : Net} {keep : Id → Bool} {c : Bool} (h : n.cutOut keep c = .ok n')
+    {i' : Intersection} (hi' : i' ∈ n'.inters) :
+    ∃ i ∈ n.inters, i.id = i'.id ∧ (∃ k', k' ∈ i'.incomings) ∧ ∀ k' ∈ i'.incomings, ∃ k ∈ i.incomings, k.id = k'.id ∧
+      (∃ a ∈ k.inc, a ∈ n'.lids) ∧ (∃ a ∈ k.right ++ k.straight ++ k.left, a ∈ n'.lids) := by
+  have hl := cutOut_lids h
+  obtain ⟨_, _, rfl⟩ := cutOut_ok h
+  have hP : ∀ a, (fun a => (((n.cutKept keep).map (·.id))).contains a) a = true → a ∈ n.lids.filter keep := by
+    intro a ha
+    rw [← cutBase_lids]
+    simpa [Net.cutBase, Net.lids] using ha
+  rw [hl]
+  have base : ∀ i1 ∈ (n.cutBase keep).inters, ∃ i ∈ n.inters, i.id = i1.id ∧ (∃ k', k' ∈ i1.incomings) ∧
+      ∀ k' ∈ i1.incomings, ∃ k ∈ i.incomings, k.id = k'.id ∧
+        (∃ a ∈ k.inc, a ∈ n.lids.filter keep) ∧ (∃ a ∈ k.right ++ k.straight ++ k.left, a ∈ n.lids.filter keep) := by
+    intro i1 hi1
+    obtain ⟨i, hi, hc⟩ := List.mem_filterMap.1 hi1
+    refine ⟨i, hi, by rw [Intersection.cut_some hc], Intersection.cut_some_nonempty hc, ?_⟩
+    intro k' hk'
+    rw [Intersection.cut_some hc] at hk'
+    obtain ⟨k, hk, hck⟩ := List.mem_filterMap.1 hk'
+    obtain ⟨⟨a, ha, hpa⟩, ⟨b, hb, hpb⟩⟩ := Incoming.cut_some_nonempty hck
+    exact ⟨k, hk, by rw [Incoming.cut_some hck], ⟨a, ha, hP a hpa⟩, ⟨b, hb, hP b hpb⟩⟩
+  cases c
+  · exact base i' hi'
+  · simp only [if_true] at hi'
+    obtain ⟨i1, hi1, rfl⟩ := List.mem_map.1 hi'
+    obtain ⟨i, hi, hid, ⟨k0, hk0⟩, hks⟩ := base i1 hi1
+    refine ⟨i, hi, hid, ⟨k0.cleanL _, List.mem_map.2 ⟨k0, hk0, rfl⟩⟩, ?_⟩
+    intro k' hk'
+    obtain ⟨k1, hk1, rfl⟩ := List.mem_map.1 hk'
+    exact hks k1 hk1
 
 end CR.Refs
